@@ -88,6 +88,10 @@ def build_jobs(tier, seed):
         seen.add(key)
         job = {'id': len(jobs), 'text': text, 'cases': inputs,
                'meta': {'ctx': name, 'depth': G.depth(e), 'kinds': sorted(G.kinds(e))}}
+        from props import c04
+        _, rules_ = G.grammar_text(e)
+        req, rxs = c04.prep_request([('rule', 'start', e)] + [('rule', k, v) for k, v in rules_.items()])
+        job.update({'prep_request': req, 'prep_rx': rxs, 'prep_entry': 'start'})
         if dyn:
             job['dyn'] = dyn
         jobs.append(job)
